@@ -794,7 +794,9 @@ func c18ExtraAttrs() []c18XAttr {
 
 func c18ExtraNLRIs() []bgpgen.NLRI {
 	var out []bgpgen.NLRI
-	add := func(f bgp.Family, n string, v bgp.NLRI) { out = append(out, bgpgen.NLRI{Name: f.String() + "/c18-" + n, Family: f, NLRI: v}) }
+	add := func(f bgp.Family, n string, v bgp.NLRI) {
+		out = append(out, bgpgen.NLRI{Name: f.String() + "/c18-" + n, Family: f, NLRI: v})
+	}
 	// RT membership whose 8-octet route target is not a transitive sub-type-2 community: the NLRI carries
 	// an arbitrary extended community prefix on the wire.
 	add(bgp.RF_RTC_UC, "rt-subtype-soo", bgp.NewRouteTargetMembershipNLRI(65000, bgp.NewTwoOctetAsSpecificExtended(bgp.EC_SUBTYPE_ROUTE_ORIGIN, 65000, 100, true)))
@@ -858,7 +860,7 @@ func c18Canon(n any) any {
 			ps = append(ps, bgp.NewAs4PathParam(p.GetType(), p.GetAS()))
 		}
 		r := bgp.NewPathAttributeAsPath(ps)
-		r.Flags = a.Flags &^ bgp.BGP_ATTR_FLAG_EXTENDED_LENGTH | r.Flags&bgp.BGP_ATTR_FLAG_EXTENDED_LENGTH
+		r.Flags = a.Flags&^bgp.BGP_ATTR_FLAG_EXTENDED_LENGTH | r.Flags&bgp.BGP_ATTR_FLAG_EXTENDED_LENGTH
 		return r
 	case *bgp.PathAttributeAggregator:
 		r, err := bgp.NewPathAttributeAggregator(a.Value.AS, a.Value.Address)
@@ -910,7 +912,9 @@ func TestVerif_C18_Codec(t *testing.T) {
 			return v, err
 		}
 		e.Ser = func(n any) c18Ser {
-			return func([]*bgp.MarshallingOption) ([]byte, error) { return n.(bgp.ParameterCapabilityInterface).Serialize() }
+			return func([]*bgp.MarshallingOption) ([]byte, error) {
+				return n.(bgp.ParameterCapabilityInterface).Serialize()
+			}
 		}
 	}
 	noOpts := []bgpgen.OptSet{optsAll[0]}
@@ -951,7 +955,9 @@ func TestVerif_C18_Codec(t *testing.T) {
 			return l[0], nil
 		}
 		e.Ser = func(n any) c18Ser {
-			return func(o []*bgp.MarshallingOption) ([]byte, error) { return n.(bgp.PathAttributeInterface).Serialize(o...) }
+			return func(o []*bgp.MarshallingOption) ([]byte, error) {
+				return n.(bgp.PathAttributeInterface).Serialize(o...)
+			}
 		}
 		e.Canon = c18Canon
 		e.Delta = c18LsDelta
